@@ -907,6 +907,33 @@ fn gen_case(rng: &mut Rng, ctx: &Ctx, pools: &Pools) -> SchedCase {
         let heap_shift = if rng.chance(0.5) { 0 } else { rng.range(1, 4096) as usize };
         threads.push(SimThread { entropy, heap_shift, jobs, reuse: rng.chance(0.35) });
     }
+    // compilations that overlap in time, each resolving the same URLs through the same load-path
+    // names against a tree of its own: whatever one of them learns about "where lib is" is
+    // worthless to the others (a process-wide table of resolutions shows here and nowhere else)
+    if threads.len() >= 2 && rng.chance(0.3) {
+        for (ti, th) in threads.iter_mut().enumerate() {
+            let mut j = JobSpec::default();
+            j.cwd = "/t".into();
+            j.eval_fuel = 1_000_000;
+            j.depth_limit = JOB_DEPTH_LIMIT;
+            j.label = format!("load-path-job:{}", ti);
+            j.load_paths = vec!["/t/generated".into(), "/t/vendor".into()];
+            let variant = rng.below(3);
+            for (u, name) in [("lib", "_lib.scss"), ("kit", "kit.scss"), ("base", "base/_index.scss")] {
+                if variant != 0 {
+                    j.files.push((format!("/t/vendor/{}", name), format!(".{} {{ from: vendor-of-thread-{}; }}\n", u, ti).into_bytes()));
+                }
+                if variant != 1 {
+                    j.files.push((format!("/t/generated/{}", name), format!(".{} {{ from: generated-of-thread-{}; }}\n", u, ti).into_bytes()));
+                }
+            }
+            let y = yields(rng, density);
+            j.files.push(("/t/main.scss".into(), format!("@use \"lib\";\n{}@import \"kit\";\n{}@import \"base\";\na {{ b: c; }}\n", y, y).into_bytes()));
+            j.entry = Entry::Path("/t/main.scss".into());
+            let at = rng.usize_below(th.jobs.len() + 1);
+            th.jobs.insert(at, j);
+        }
+    }
     let policy = match rng.below(10) {
         0 | 1 => Policy::Serial,
         2 => Policy::Random(0.02),
